@@ -295,6 +295,34 @@ def ho_pattern(r, g):
         pat = Abs('x', A, Comb(f, av))
         t = Abs('x', A, Comb(Comb(g2, Bound(0)), cst)) if r.random() < 0.6 else Abs('x', A, Comb(Comb(g2, cst), Bound(0)))
         return pat, t, 'heuristic-under-binder'
+    if c < 0.93:
+        # heuristic branch with a head of two or three arguments, each an unmatched schematic variable, a compound pattern
+        # or a concrete term; the target has a head of the same arity (sometimes partially applied differently)
+        k = r.choice([2, 2, 3])
+        f = SVar('f', TFun(*([A] * k + [B])))
+        h = Var('h', TFun(*([A] * k + [B])))
+        g2 = Var('g', TFun(A, A, A))
+        cs = [Var(nm, A) for nm in 'cde']
+        pargs, targs = [], []
+        for i in range(k):
+            ci = r.choice(cs)
+            cc = r.random()
+            if cc < 0.45:
+                pargs.append(SVar('abw'[i], A))
+                targs.append(ci)
+            elif cc < 0.75:
+                v = SVar('abw'[r.randrange(k)], A)
+                pargs.append(Comb(Comb(g2, v), v))
+                targs.append(Comb(Comb(g2, ci), ci))
+            else:
+                pargs.append(ci)
+                targs.append(ci)
+        pat, t = f, h
+        for u in pargs:
+            pat = Comb(pat, u)
+        for u in targs:
+            t = Comb(t, u)
+        return pat, t, 'heuristic-multi'
     # heuristic branch: ?f applied to a non-variable
     f = SVar('f', TFun(A, B))
     h = Var('h', TFun(A, B))
@@ -441,6 +469,11 @@ def run_check(tier, seed):
         inst0 = Inst()
         if kind == 'heuristic-under-binder' and r.random() < 0.7:
             inst0['a'] = Var('c', p.var_T)
+        if kind == 'heuristic-multi' and r.random() < 0.5:
+            # the first argument is already bound by the caller, consistently with the target
+            pa, ta = p.fun.arg if p.fun.is_comb() and not p.fun.fun.is_comb() else p.args[0], t.args[0]
+            if pa.is_svar():
+                inst0[pa.name] = ta
         res, err, modified = try_match(p, t, inst0)
         run.stat('ho:' + kind + (':match' if res is not None else ':' + str(err)))
         if modified:
